@@ -1027,11 +1027,19 @@ func (g *sessGen) step() {
 				}
 			}
 		}
-		g.add(fmt.Sprintf("(defclass %s (%s) ((%s-s1 :initarg :%s-s1 :initform %d) (%s-s2 :initform '(a b) :allocation :class)) (:documentation \"a class\"))", n, super, n, n, g.r.Intn(90), n))
+		// a slot every class with fewer than two direct superclasses defines with its own initform; a class with two
+		// parents inherits it from the parent that comes first in its precedence (the ORDER of the superclasses)
+		shared := fmt.Sprintf(" (c19-shared :initform %d)", 100+len(g.classes))
+		if strings.Contains(super, " ") {
+			shared = ""
+		}
+		g.add(fmt.Sprintf("(defclass %s (%s) ((%s-s1 :initarg :%s-s1 :initform %d) (%s-s2 :initform '(a b) :allocation :class)%s) (:documentation \"a class\"))", n, super, n, n, g.r.Intn(90), n, shared))
 		g.classes = append(g.classes, n)
 		g.probe(fmt.Sprintf("(slot-value (make-instance '%s) '%s-s1)", n, n))
 		g.probe(fmt.Sprintf("(slot-value (make-instance '%s) '%s-s2)", n, n))
 		g.probe(fmt.Sprintf("(documentation '%s 'type)", n))
+		// every class defines this slot with its own initform: which one an instance gets depends on the precedence
+		g.probe(fmt.Sprintf("(slot-value (make-instance '%s) 'c19-shared)", n))
 		if g.r.Chance(60) {
 			vn := g.pick(varNames)
 			g.hist("op:defparameter-class-instance")
@@ -1052,8 +1060,12 @@ func genSession(r *common.Rng, hist func(string), wild, modelled bool) (forms, p
 	for i := 0; i < n; i++ {
 		g.step()
 	}
-	if g.curPkg != "" {
+	if g.curPkg != "" && (modelled || wild || !r.Chance(50)) {
 		g.add("(in-package \"common-lisp-user\")")
+	} else if g.curPkg != "" {
+		// the snapshot is taken while a user package is current (the functions section must switch to it all the same)
+		hist("op:snapshot-in-user-package")
+		g.probe("(package-name *package*)")
 	}
 	// probes: every variable, constant, function (with argument lists), macro, documentation
 	for _, v := range common.SortedKeys(g.vars) {
